@@ -781,6 +781,74 @@ func c17BridgeBehaviours(r *fw.Run, k int) {
 	r.Case(fw.Hash("bridge-behaviour", b.what, mode), true)
 }
 
+// c17StartRace: the context is cancelled at (almost) the same instant the operation starts - a few hundred nanoseconds
+// to a few microseconds before or after. Thousands of repetitions on one connection; each operation must return (with a
+// context error, or - if it got that far - at least promptly), and the connection must still deliver a frame afterwards.
+func c17StartRace(r *fw.Run, transport string, reps int) {
+	cse := map[string]interface{}{"what": "cancel racing the start of the operation", "transport": transport}
+	e, err := newCtxEnd(r, transport)
+	if err != nil {
+		r.Inconclusive("transport %s: %v", transport, err)
+		return
+	}
+	defer e.Close()
+	var sink int64
+	for k := 0; k < reps; k++ {
+		ctx, cancel := context.WithCancel(context.Background())
+		gate := make(chan struct{})
+		spin := k % 97 * 3
+		go func() {
+			<-gate
+			for i := 0; i < spin; i++ {
+				atomic.AddInt64(&sink, 1)
+			}
+			cancel()
+		}()
+		done := make(chan error, 1)
+		go func() {
+			<-gate
+			var err error
+			if k%3 == 2 {
+				buf := make([]byte, 64)
+				_, err = e.rw.Read(ctx, buf)
+			} else {
+				_, err = e.rw.ReadBytes(ctx, 0)
+			}
+			done <- err
+		}()
+		close(gate)
+		select {
+		case err := <-done:
+			if err == nil {
+				r.Violation("C17 no-error-after-context-end", fmt.Sprintf("%s, repetition %d: a read on a silent connection whose context was cancelled as it started returned success", transport, k), cse)
+				cancel()
+				return
+			}
+		case <-time.After(10 * time.Second):
+			n, sample := ctxioGoroutines()
+			r.Violation("C17 not-unblocked", fmt.Sprintf("%s, repetition %d (cancel about %d increments after the start): the read has not returned 10 s after its context was cancelled; %d goroutines inside the library's connection:\n%s", transport, k, spin, n, clip(sample, 1200)), cse)
+			cancel()
+			e.peer.Close()
+			return
+		}
+		cancel()
+		r.Count("operations_cancelled_at_their_start", 1)
+	}
+	// the connection still works
+	f := append([]byte(`{"parameters":{"after-the-races":true}}`), 0)
+	e.peer.SetWriteDeadline(time.Now().Add(10 * time.Second))
+	go e.peer.Write(f)
+	ctx, cancel := context.WithCancel(context.Background())
+	t := time.AfterFunc(15*time.Second, cancel)
+	b, err := e.rw.ReadBytes(ctx, 0)
+	t.Stop()
+	cancel()
+	if err != nil || !bytes.Equal(b, f) {
+		r.Violation("C17 reuse-failed", fmt.Sprintf("%s: after %d reads that were cancelled as they started, a read with a live context returned %q, %v; the peer had sent %q", transport, reps, clip(string(b), 80), err, clip(string(f), 80)), cse)
+	}
+	r.Case(fw.Hash("start-race", transport), true)
+}
+
 func runC17(r *fw.Run) {
 	rng := rand.New(rand.NewSource(r.Seed*53 + 17))
 	cases := c17Matrix(rng, r.Pick(2, 30))
@@ -802,6 +870,14 @@ func runC17(r *fw.Run) {
 	for k := 0; k < r.Pick(2, 10); k++ {
 		c17Service(r, "unix", k%2 == 0)
 		c17Service(r, "tcp", k%2 == 1)
+	}
+	for _, tr := range []string{"pipe", "unix", "tcp"} {
+		if r.ViolationCount() > 12 {
+			break
+		}
+		r.Journal(0, map[string]interface{}{"what": "cancel racing the start of the operation", "transport": tr})
+		c17StartRace(r, tr, r.Pick(3000, 40000))
+		r.Done(0)
 	}
 	for k := 0; k < r.Pick(10, 100) && r.ViolationCount() <= 12; k++ {
 		r.Journal(0, map[string]interface{}{"what": "bridge behaviour", "k": k})
@@ -836,7 +912,7 @@ func replayC17(r *fw.Run, raw json.RawMessage) {
 func init() {
 	fw.Register(&fw.Engine{
 		ID: "C17", Level: "exploration",
-		Rule: "the matrix operation in {raw Read, raw ReadBytes, raw Write, client receive, client Call, client Send} x transport in {in-memory pipe, unix socketpair, TCP pair (white-box constructor of the library's connection), real Connection over a unix socket, bridge subprocess} x {cancel, deadline} x instant in {before the call, blocked with nothing in flight, blocked after a partial frame was received, blocked with a partial frame already in the library's buffer (it had arrived in one segment with the previous, complete frame), after completion} (writes: blocked on a peer that does not read, one 8 MiB write, or consecutive 4000-byte writes until one blocks), each cell repeated with seeded cancel offsets 0..3 ms. Oracle per cell: the operation returns within 10 s of the context's end (else the goroutine dump must show it parked in the library) with context.Canceled / DeadlineExceeded / a timeout error - or, for 'after completion', success with the right bytes; then no goroutine remains inside the library's connection; then a read with a live context must BLOCK (not fail at once on a stale deadline) until the peer sends a fresh frame and must return exactly that frame, optionally preceded by a suffix of the partial frame that was in flight; a follow-up write must deliver its bytes intact after a prefix of the cancelled write; on client transports a complete Call on the same Connection must succeed. Plus the service side: idle, mid-frame, used and used-with-the-start-of-the-next-frame-in-the-same-segment connections and handlers blocked in Call.Conn Read/Write all end within 10 s of cancelling the serving context, handlers see a context error, active count returns to 0. non-trivial = any instant other than 'after completion'; distinct by cell + offset. Modes: cancel, deadline, and explicit cancel of a context that also has a distant deadline; further instant: cancel followed at once by Close of the connection (goroutine-leak monitor only). Follow-up operations use a context without deadline in two cases out of three; a third operation follows. Bridge subprocesses that close their output but linger, stay silent, exit at once or complain on stderr: Send+receive returns within 10 s of the context's end, Close within 15 s.",
+		Rule: "the matrix operation in {raw Read, raw ReadBytes, raw Write, client receive, client Call, client Send} x transport in {in-memory pipe, unix socketpair, TCP pair (white-box constructor of the library's connection), real Connection over a unix socket, bridge subprocess} x {cancel, deadline} x instant in {before the call, blocked with nothing in flight, blocked after a partial frame was received, blocked with a partial frame already in the library's buffer (it had arrived in one segment with the previous, complete frame), after completion} (writes: blocked on a peer that does not read, one 8 MiB write, or consecutive 4000-byte writes until one blocks), each cell repeated with seeded cancel offsets 0..3 ms. Oracle per cell: the operation returns within 10 s of the context's end (else the goroutine dump must show it parked in the library) with context.Canceled / DeadlineExceeded / a timeout error - or, for 'after completion', success with the right bytes; then no goroutine remains inside the library's connection; then a read with a live context must BLOCK (not fail at once on a stale deadline) until the peer sends a fresh frame and must return exactly that frame, optionally preceded by a suffix of the partial frame that was in flight; a follow-up write must deliver its bytes intact after a prefix of the cancelled write; on client transports a complete Call on the same Connection must succeed. Plus the service side: idle, mid-frame, used and used-with-the-start-of-the-next-frame-in-the-same-segment connections and handlers blocked in Call.Conn Read/Write all end within 10 s of cancelling the serving context, handlers see a context error, active count returns to 0. non-trivial = any instant other than 'after completion'; distinct by cell + offset. Modes: cancel, deadline, and explicit cancel of a context that also has a distant deadline; further instant: cancel followed at once by Close of the connection (goroutine-leak monitor only). Follow-up operations use a context without deadline in two cases out of three; a third operation follows. 3000 (thorough 40 000) reads per transport whose context is cancelled within microseconds of their start. Bridge subprocesses that close their output but linger, stay silent, exit at once or complain on stderr: Send+receive returns within 10 s of the context's end, Close within 15 s.",
 		Assumptions: []string{"bounded progress: 10 s (normal latency: well under a millisecond)", "the 4 ms 'must still block' window is one-sided: a follow-up read that fails or returns inside it is a violation"},
 		Run:         runC17, Replay: replayC17, CrashIsViolation: true, MinEvals: 50,
 		QuickTimeout: 15 * time.Minute, ThoroughTimeout: 60 * time.Minute,
